@@ -12,13 +12,25 @@ R2  spec->code: TLC enumerates every graph of the family and prints the defined 
 R3  code->spec: outputs that are only constrained by a predicate (cycle basis, colourings, spanning
     forests, degeneracy order, topological order) and all outputs on seeded random graphs up to 40 nodes
     are recorded from the real code and judged by TLC against StructuralTrace.tla.
+R3c chromatic number beyond enumeration: hundreds of seeded random graphs of 20..32 nodes, DsaturExact called many
+    times per graph on rebuilt containers plus every heuristic; StructuralTrace ("chrom" clauses) accepts only
+    total proper colourings with exactly k colours and an exact solver never beaten by another recorded colouring
+    of the same graph; ChromaticSearch.tla (canonical colouring search as a state machine, proved complete for
+    every vertex order on all graphs <= 5 nodes by R1 SearchOK) is exhausted by TLC with K = least recorded k - 1
+    for every graph at once: no complete colouring reachable = the least recorded k IS the chromatic number.
+    A reachable complete colouring is a witness that the exact solver missed the chromatic number; the harness
+    confirms it on the real container and re-runs DsaturExact against it.
 """
 import json
 import os
+import re
 import shutil
 
-D_INV = "ReachOK SccOK BfsOK BfsLayersPartition SortOK TopoAcyclic CyclesOK CyclesInScc DomOK"
-U_INV = "ReachOK SccOK BfsOK BfsLayersPartition CcOK CliqueOK CoreOK ChiOK BasisOK MsfOK KccOK"
+D_INV = "ReachOK SccOK BfsOK BfsLayersPartition SortOK TopoAcyclic CyclesOK CycleSearchOK CyclesInScc DomOK"
+U_INV = "ReachOK SccOK BfsOK BfsLayersPartition CcOK CliqueOK CliqueSearchOK CoreOK ChiOK SearchOK BasisOK MsfOK KccOK"
+
+
+ABOVE_CHI = "structural:DsaturExact:above-chromatic-number"
 
 
 def gen(ctx, mode, nmin, nmax, palette="{0,2}", name=None):
@@ -34,13 +46,193 @@ def trace(ctx, b, tag, args, keepname):
                           name="R3 validate " + tag, timeout=2400)
     if ok:
         ctx.traces += summ.get("traces", 0)
-        return
+        return tr
     keep = os.path.join(os.path.dirname(__file__), "..", "..", "replays", "C14")
     os.makedirs(keep, exist_ok=True)
     dst = os.path.abspath(os.path.join(keep, "trace-%s-seed%d.ndjson" % (keepname, ctx.seed)))
+    detail = st.get("detail", "")
+    at = re.search(r"TRACE-REJECTED at event (\d+): failed clauses (\{[^}]*\})", detail)
+    if keepname in ("chromatic", "dcycles") and at:
+        # one event = one graph with all its calls: the rejected event alone is the artefact
+        with open(dst, "w") as fh:
+            fh.write(open(tr).read().split("\n")[int(at.group(1)) - 1] + "\n")
+        ev = json.loads(open(dst).read())
+        clauses = at.group(2).replace('\\"', "")
+        head = "graph %d (%s, %d nodes, %d edges): clauses %s rejected by StructuralTrace" % (
+            ev["gid"], ev["type"], len(ev["V"]), len(ev["E"]), clauses)
+        if keepname == "dcycles":
+            sig = ("structural:DirectedCyclesIn:not-elementary-or-twice" if "DirectedCyclesIn" in clauses
+                   else "structural:trace-rejected:dcycles")
+            ctx.violation(sig, head + "; cycles returned per call: %s" % [len(r["cycles"]) for r in ev["runs"]],
+                          {"trace": dst, "spec": "structural/StructuralTrace.tla"})
+            return tr
+        ks = sorted(set(c["k"] for c in ev["calls"] if c["exact"]))
+        alg = re.search(r"(\w+): total, proper", clauses)
+        sig = (ABOVE_CHI if "DsaturExact-attains-least-k" in clauses else
+               "structural:%s:colouring-not-total-proper-k" % alg.group(1) if alg else
+               "structural:BronKerbosch:not-maximal-or-twice" if "BronKerbosch" in clauses else
+               "structural:trace-rejected:chromatic")
+        ctx.violation(sig, head + "; DsaturExact returned k in %s over %d calls, least recorded k = %d" % (
+                          ks, sum(1 for c in ev["calls"] if c["exact"]), min(c["k"] for c in ev["calls"])),
+                      {"trace": dst, "spec": "structural/StructuralTrace.tla"})
+        return tr
     shutil.copy(tr, dst)
-    ctx.violation("structural:trace-rejected:%s" % keepname, st.get("detail", "")[:900],
+    ctx.violation("structural:trace-rejected:%s" % keepname, detail[:900],
                   {"trace": dst, "spec": "structural/StructuralTrace.tla"})
+    return tr
+
+
+def chromatic(ctx, b, tag="chromatic", sizes=None):
+    """R3c: see the module docstring. Sizes are measured: DsaturExact takes 2..90 ms per call on these graphs
+    (recording 200 graphs x 16 calls: 25-45 s on 4 goroutines), TLC's exhaustive search 10^4..10^5 states in all."""
+    thorough = ctx.tier == "thorough"
+    args = ["mode=chromatic", "par=4"] + (sizes or (
+        ["graphs=400", "calls=20", "heur=2", "nmin=20", "nmax=36", "cliq=1"] if thorough else
+        ["graphs=200", "calls=16", "heur=1", "nmin=22", "nmax=30", "cliq=1"]))
+    tr = trace(ctx, b, tag, args, "chromatic")
+    events = [json.loads(l) for l in open(tr)]
+    sfx = "" if tag == "chromatic" else " [%s]" % tag
+    family_search(ctx, b, tr, events, "clique", sfx)
+    skip = []
+    while True:
+        ok, st = ctx.validate("structural/ChromaticSearch.tla", "structural/ChromaticSearch.cfg", tr,
+                              subst=dict(SKIP=", ".join(map(str, skip))), dfs=True, workers=4, timeout=1500,
+                              accept_re=r"CHROMATIC-SEARCH-INSTANCES (\d+)",
+                              name="R3 chromatic lower bounds: exhaustive search with (least recorded k)-1 colours" + sfx
+                                   + (" [without graphs %s]" % skip if skip else ""))
+        if ok:
+            st["chromatic_numbers_proved"] = st.get("events_consumed", 0)
+            break
+        # NotComplete violated: the last state of TLC's counterexample is a complete colouring of graph g
+        detail = st.get("detail", "")
+        gs = re.findall(r"/\\ g = (\d+)", detail)
+        cols = re.findall(r"/\\ col = <<([\d,\s]*)>>", detail)
+        if "NotComplete is violated" not in detail and not (gs and cols):
+            raise_undecided("chromatic search failed without a readable counterexample:\n" + detail[-1500:])
+        if not gs or not cols:
+            raise_undecided("chromatic search: counterexample not in the output tail:\n" + detail[-1500:])
+        ev = events[int(gs[-1]) - 1]
+        col = [int(x) for x in cols[-1].replace("\n", " ").split(",") if x.strip()]
+        if ev.get("k") != "chrom" or len(col) != len(ev["order"]):
+            raise_undecided("chromatic search: counterexample does not fit event %s" % gs[-1])
+        pairs = sorted([v, c] for v, c in zip(ev["order"], col))
+        kw = len(set(col))
+        kmin = min(c["k"] for c in ev["calls"] if c["err"] == "")
+        case = {"k": "witness", "gid": ev["gid"], "V": ev["V"], "E": ev["E"], "col": pairs, "kw": kw, "kmin": kmin,
+                "calls": 300, "type": ev["type"]}
+        wf = os.path.join(ctx.work, "witness-%d.ndjson" % ev["gid"])
+        with open(wf, "w") as fh:
+            fh.write(json.dumps(case) + "\n")
+        if kw >= kmin:
+            raise_undecided("chromatic search: counterexample for graph %d uses %d colours, least recorded k is %d" % (ev["gid"], kw, kmin))
+        summ = ctx.replay(b, "structural", wf, [], confirm=False,
+                          name="R3 chromatic witness for graph %d replayed (proper on the container? DsaturExact again)" % ev["gid"])
+        if not summ.get("extra", {}).get("witness_confirmed_proper"):
+            raise_undecided("the %d-colouring TLC found for graph %d was not confirmed proper by the harness: %s"
+                            % (kw, ev["gid"], pairs))
+        if not summ.get("failures"):
+            # DsaturExact did not repeat the larger k in 300 fresh calls (the search order depends on map
+            # iteration order): the recorded calls plus the witness are the artefact; StructuralTrace rejects it
+            keep = os.path.join(os.path.dirname(__file__), "..", "..", "replays", "C14")
+            os.makedirs(keep, exist_ok=True)
+            dst = os.path.abspath(os.path.join(keep, "trace-chromatic-witness-g%d-seed%d.ndjson" % (ev["gid"], ctx.seed)))
+            ev2 = dict(ev, calls=ev["calls"] + [{"alg": "ChromaticSearch-witness", "k": kw, "col": pairs, "err": "", "exact": False}])
+            with open(dst, "w") as fh:
+                fh.write(json.dumps(ev2) + "\n")
+            ctx.violation(ABOVE_CHI, "graph %d (%s): every recorded DsaturExact call returned k >= %d, TLC found a proper "
+                          "colouring with %d colours (confirmed on the container): %s" % (ev["gid"], ev["type"], kmin, kw, pairs),
+                          {"trace": dst, "spec": "structural/StructuralTrace.tla"})
+        skip.append(ev["gid"])
+        if len(skip) >= 3:
+            ctx.notes.append("chromatic search stopped after 3 witnesses; remaining graphs not searched")
+            break
+
+
+# the two "no returned family misses an object" searches: what differs between them
+FAMILY = {
+    "clique": dict(
+        spec="structural/CliqueSearch", marker="CLIQUE-SEARCH-INSTANCES", workers=4,
+        stage="R3 BronKerbosch completeness: exhaustive clique enumeration",
+        state=r"/\\ R = \{([\d,\s]*)\}", canon=sorted, routine="BronKerbosch", what="maximal clique",
+        sig="structural:BronKerbosch:missing-maximal-clique", case_kind="missing-clique", field="clique",
+        confirmed="clique_confirmed_maximal", proved="clique_families_proved_complete",
+        returned=lambda ev: [[sorted(c) for c in ev["cliques"]]]),
+    "cycle": dict(
+        spec="structural/CycleSearch", marker="CYCLE-SEARCH-INSTANCES", workers=4,
+        stage="R3 DirectedCyclesIn completeness: exhaustive enumeration of canonical simple paths",
+        state=r"/\\ path = <<([\d,\s]*)>>", canon=list, routine="DirectedCyclesIn", what="elementary cycle",
+        sig="structural:DirectedCyclesIn:missing-elementary-cycle", case_kind="missing-cycle", field="cycle",
+        confirmed="cycle_confirmed_elementary", proved="cycle_sets_proved_complete",
+        returned=lambda ev: [r["cycles"] for r in ev["runs"]]),
+}
+
+
+def family_search(ctx, b, tr, events, which, sfx=""):
+    """Completeness of a returned family on recorded graphs: TLC enumerates every object of every graph
+    (CliqueSearch.tla: every clique; CycleSearch.tla: every simple path with least first node); one that
+    qualifies (maximal clique / closes an elementary cycle) and is not in a returned family is a violation."""
+    F = FAMILY[which]
+    skip = []
+    while True:
+        ok, st = ctx.validate(F["spec"] + ".tla", F["spec"] + ".cfg", tr,
+                              subst=dict(SKIP=", ".join(map(str, skip))), workers=F["workers"], timeout=1500,
+                              accept_re=F["marker"] + r" (\d+)",
+                              name=F["stage"] + sfx + (" [without graphs %s]" % skip if skip else ""))
+        if ok:
+            st[F["proved"]] = st.get("events_consumed", 0)
+            return
+        detail = st.get("detail", "")
+        gs = re.findall(r"/\\ g = (\d+)", detail)
+        xs = re.findall(F["state"], detail)
+        if not gs or not xs:
+            raise_undecided("%s search failed without a readable counterexample:\n%s" % (which, detail[-1500:]))
+        ev = events[int(gs[-1]) - 1]
+        obj = F["canon"](int(x) for x in xs[-1].replace("\n", " ").split(",") if x.strip())
+        if not obj or all(obj in fam for fam in F["returned"](ev)):
+            raise_undecided("%s search: counterexample does not fit event %s: %s" % (which, gs[-1], obj))
+        case = {"k": F["case_kind"], "gid": ev["gid"], "V": ev["V"], "E": ev["E"], F["field"]: obj, "calls": 50,
+                "type": ev["type"]}
+        wf = os.path.join(ctx.work, "%s-%d.ndjson" % (F["case_kind"], ev["gid"]))
+        with open(wf, "w") as fh:
+            fh.write(json.dumps(case) + "\n")
+        summ = ctx.replay(b, "structural", wf, [], confirm=False,
+                          name="R3 missing %s of graph %d replayed (confirmed on the container? %s again)"
+                               % (F["what"], ev["gid"], F["routine"]))
+        if not summ.get("extra", {}).get(F["confirmed"]):
+            raise_undecided("the %s TLC reached in graph %d was not confirmed by the harness: %s" % (F["what"], ev["gid"], obj))
+        if not summ.get("failures"):
+            # not repeated in 50 fresh calls: the recorded output is the artefact; the one-event trace is re-judged
+            # by the same search module on replay
+            keep = os.path.join(os.path.dirname(__file__), "..", "..", "replays", "C14")
+            os.makedirs(keep, exist_ok=True)
+            dst = os.path.abspath(os.path.join(keep, "trace-%s-g%d-seed%d.ndjson" % (F["case_kind"], ev["gid"], ctx.seed)))
+            with open(dst, "w") as fh:
+                fh.write(json.dumps(ev) + "\n")
+            ctx.violation(F["sig"], "graph %d (%s): a recorded output of %s does not contain the %s %s "
+                          "(reached by TLC's exhaustive enumeration, confirmed on the container)"
+                          % (ev["gid"], ev["type"], F["routine"], F["what"], obj),
+                          {"trace": dst, "spec": F["spec"] + ".tla", "subst": {"SKIP": ""},
+                           "accept_re": F["marker"] + r" (\d+)"})
+        skip.append(ev["gid"])
+        if len(skip) >= 3:
+            ctx.notes.append("%s search stopped after 3 missing objects; remaining graphs not searched" % which)
+            return
+
+
+def dcycles(ctx, b):
+    """Elementary cycles beyond enumeration: seeded random digraphs of 10..20 nodes, DirectedCyclesIn on rebuilt
+    containers; StructuralTrace ("dcyc" clauses) accepts only elementary cycles, none twice; CycleSearch.tla
+    proves that none is missing. Sizes measured: 80 digraphs = 2*10^4 cycles, 8*10^4 TLC states."""
+    args = ["mode=dcycles"] + (["graphs=100", "calls=2", "nmin=12", "nmax=20", "dmin=150", "dmax=320"] if ctx.tier == "thorough"
+                               else ["graphs=80", "calls=2", "nmin=10", "nmax=18", "dmin=150", "dmax=300"])
+    tr = trace(ctx, b, "dcycles", args, "dcycles")
+    family_search(ctx, b, tr, [json.loads(l) for l in open(tr)], "cycle")
+
+
+def raise_undecided(msg):
+    # the class vlib's main() recognises by name (this module is imported under another name than vlib's user)
+    import vlib
+    raise vlib.Undecided(msg)
 
 
 def run(ctx):
@@ -80,6 +272,11 @@ def run(ctx):
         trace(ctx, b, "exh-dir", ["mode=cases", "cases=" + fd["dir"], "maps=1", "stride=%d" % (2 if thorough else 8)], "exh-dir")
         trace(ctx, b, "exh-part", ["mode=cases", "cases=" + fd["part"], "maps=1", "stride=%d" % (1 if thorough else 3)], "exh-part")
         trace(ctx, b, "random", ["mode=random", "count=%d" % (80 if thorough else 20), "maxn=40"], "random")
+        dcycles(ctx, b)
+        chromatic(ctx, b)
+        if thorough:     # the tomita pivot rule changes BronKerbosch (and through the clique bound, DsaturExact's start)
+            chromatic(ctx, dict(bins)["tomita"], tag="chromatic-tomita",
+                      sizes=["graphs=100", "calls=8", "heur=1", "nmin=20", "nmax=34", "cliq=1"])
 
     ctx.assumptions += [
         "TLC/SANY and the CommunityModules Json module are trusted",
@@ -98,7 +295,8 @@ def run(ctx):
 def replay(ctx, path):
     d = json.load(open(path))["data"]
     if "trace" in d:
-        ok, st = ctx.validate(d["spec"], d["spec"].replace(".tla", ".cfg"), d["trace"])
+        ok, st = ctx.validate(d["spec"], d["spec"].replace(".tla", ".cfg"), d["trace"], subst=d.get("subst"),
+                              accept_re=d.get("accept_re", r"TRACE-ACCEPTED (\d+)"))
         print("trace accepted" if ok else "trace rejected: " + st.get("detail", "")[:800])
         if not ok:
             print("VIOLATION property=C14 replay=%s" % path)
